@@ -40,7 +40,7 @@ func genInput(t *rapid.T, env *stdrun.Env, k stdh.Kind) ([]byte, string) {
 	pkg := k.Pkg()
 	c := stdgen.LoadCorpus(ev.RepoRoot())
 	if k.Iface >= stdh.H32 {
-		return stdgen.Payload(t, "pl", 20000), "hash-payload"
+		return stdgen.Payload(t, "pl", 200000), "hash-payload"
 	}
 	files := c.Small(pkg, maxFile())
 	src := rapid.IntRange(0, 9).Draw(t, "source")
